@@ -289,7 +289,9 @@ func indexConfigObjects(ptr any, configPath string, index map[string]string) err
 				case string:
 					index[idVal] = configPath
 				case float64: // all JSON numbers decode as float64
-					index[fmt.Sprintf("%v", idVal)] = configPath
+					// plain decimal notation, as the ID is written in a URL
+					// (%v would print 1000000 as 1e+06)
+					index[strconv.FormatFloat(idVal, 'f', -1, 64)] = configPath
 				default:
 					return fmt.Errorf("%s: %s field must be a string or number", configPath, idKey)
 				}
